@@ -4,5 +4,8 @@ ms = json.load(open('/root/.vp/MANIFEST.schema.json')); es = json.load(open('/ro
 jsonschema.validate(json.load(open('/verif/MANIFEST.json')), ms)
 n = 0
 for f in sorted(glob.glob('/verif/evidence/*.json')):
-    jsonschema.validate(json.load(open(f)), es); n += 1
+    try:
+        jsonschema.validate(json.load(open(f)), es); n += 1
+    except Exception as e:
+        print("INVALID", f, str(e).splitlines()[0])
 print("manifest ok; evidence files valid:", n)
